@@ -24,8 +24,7 @@ def _is_int_dtype(dtype):
 
 def lift_array(a):
     """Object arrays: numbers -> Sym constants (so that .log() etc. exist)."""
-    if isinstance(a, _np.ndarray) and a.dtype == object:
-        flat = a.reshape(-1) if a.flags['C_CONTIGUOUS'] else None
+    if isinstance(a, _np.ndarray) and a.dtype == object and a.size:
         it = _np.nditer(a, flags=['refs_ok', 'multi_index'],
                         op_flags=['readwrite'])
         for cell in it:
@@ -58,7 +57,8 @@ def _elementwise(f_sym, f_float):
             return x.map(g)
         if isinstance(x, _np.ndarray) and x.dtype == object:
             out = _np.empty(x.shape, dtype=object)
-            it = _np.nditer(x, flags=['refs_ok', 'multi_index'])
+            it = _np.nditer(x, flags=['refs_ok', 'multi_index']) \
+                if x.size else ()
             for cell in it:
                 v = cell.item()
                 out[it.multi_index] = g(v)
